@@ -129,6 +129,16 @@ CHECKS = {
         "Occurrence table of harness/fmodel.py; layouts without statement splitting/joining; per program at most 14 entities are queried.",
         "DESIGN.md §3 C06",
     ),
+    "C04": (
+        "exploration",
+        "Hypothesis grammar-based program generation with the model's block structure as oracle for documentSymbol and workspace/symbol",
+        "For every generated program and layout (END spellings full / keyword only / bare / joined, case, spacing, comments, line endings) the "
+        "outline must contain each unit and each directly contained procedure / type / named interface exactly once with the right kind, container "
+        "and the lines of its opening and END statements, type members once under their type, and no entry that matches no declared entity; "
+        "workspace/symbol for drawn queries must equal the set of units and module members whose name contains the query, sorted by name.",
+        "Members of a main program are tolerated in workspace/symbol (fortls treats a program like a module); deeper-nested outline entries are not required.",
+        "DESIGN.md §3 C04",
+    ),
 }
 
 NOT_YET = "check not built yet in this session (work in progress; see DESIGN.md §3 for the planned generator and oracle)"
